@@ -23,8 +23,9 @@ type c15Case struct {
 	Method string `json:"method"`
 	CType  string `json:"ctype"` // "" = header absent
 	Body   string `json:"body"`
-	Query  string `json:"query"`         // raw query string without '?'
-	Ptr    bool   `json:"ptr,omitempty"` // the schema is z.Ptr(z.Struct(...)): "the record may not exist"
+	Query  string `json:"query"`            // raw query string without '?'
+	Ptr    bool   `json:"ptr,omitempty"`    // the schema is z.Ptr(z.Struct(...)): "the record may not exist"
+	NotNil bool   `json:"notNil,omitempty"` // with Ptr: z.Ptr(z.Struct(...)).NotNil()
 	// Pre: what a middleware did with the request before the handler: "" | parseform (r.ParseForm) | formvalue
 	// (r.FormValue, which also parses a multipart body)
 	Pre string `json:"pre,omitempty"`
@@ -131,7 +132,11 @@ func propC15(c c15Case) hh.Verdict {
 		defer func() { pan = recover() }()
 		if c.Ptr {
 			dp := &dest
-			errs = z.Ptr(schema).Parse(zhttp.Request(req), &dp)
+			ps := z.Ptr(schema)
+			if c.NotNil {
+				ps = ps.NotNil()
+			}
+			errs = ps.Parse(zhttp.Request(req), &dp)
 			if dp != &dest {
 				pan = "the pointer schema replaced a non-nil destination pointer"
 			}
@@ -216,7 +221,12 @@ func propC15(c c15Case) hh.Verdict {
 				return hh.Fail("{} under Ptr(Struct): the schema ran (coercer of %q was called)", f)
 			}
 		}
-		if errs != nil || !reflect.DeepEqual(dest, sentinel) {
+		if c.NotNil {
+			// ... and a record that must exist is reported as missing: exactly one not_nil issue at the root
+			if len(errs) != 2 || len(errs["$root"]) != 1 || errs["$root"][0].Code != "not_nil" || !reflect.DeepEqual(dest, sentinel) {
+				return hh.Fail("{} under Ptr(Struct).NotNil(): expected exactly one not_nil issue at $root and an untouched destination, got %v / %+v", z.Issues.SanitizeMap(errs), dest)
+			}
+		} else if errs != nil || !reflect.DeepEqual(dest, sentinel) {
 			return hh.Fail("{} under Ptr(Struct): expected no issues and an untouched destination, got %v / %+v", z.Issues.SanitizeMap(errs), dest)
 		}
 		v.Classes = append(v.Classes, "empty-object-under-pointer")
@@ -367,6 +377,7 @@ func TestC15(t *testing.T) {
 				for _, b := range c15Bodies {
 					for _, q := range []string{"", "name=Q-name&tags%5B%5D=Q1", "opt=Q-opt"} {
 						yield(c15Case{Method: m, CType: ct, Body: b, Query: q, Ptr: true})
+						yield(c15Case{Method: m, CType: ct, Body: b, Query: q, Ptr: true, NotNil: true})
 					}
 				}
 			}
@@ -376,6 +387,9 @@ func TestC15(t *testing.T) {
 	jfrag := []string{"{", "}", `"name"`, `"tags"`, ":", ",", `"J"`, "[", "]", "null", "1", " ", `"opt"`, `"list"`}
 	hh.Sub(h, "random-requests", h.N(15000, 100000), func(rt *rapid.T) c15Case {
 		c := c15Case{Method: rapid.SampledFrom(c15Methods).Draw(rt, "m"), CType: rapid.SampledFrom(c15CTypes).Draw(rt, "ct"), Ptr: rapid.IntRange(0, 3).Draw(rt, "ptr") == 0}
+		if c.Ptr {
+			c.NotNil = rapid.Bool().Draw(rt, "notnil")
+		}
 		if rapid.IntRange(0, 3).Draw(rt, "pre") == 0 {
 			c.Pre = rapid.SampledFrom([]string{"parseform", "formvalue"}).Draw(rt, "prek")
 		}
